@@ -109,7 +109,7 @@ Definition root_ns (t : tree) : option str := fst (split_qname (t_qn t)).
 
 Definition tree_fits (cs : list fclass) (t : tree) : bool := tree_all (node_fits cs) (root_ns t) t.
 
-(* --- nillable: the class of a node that says xsi:nil="true" is nillable (REFUTED without g_nil_first) *)
+(* --- nillable: the class of a node that says xsi:nil="true" is nillable (holds since fix 359d494: nillable is merged like mixed) *)
 Definition node_nil_ok (cs : list fclass) (parent_ns : option str) (n : tree) : bool :=
   match xsi_nil_of n, find_class cs (class_qname parent_ns n) with
   | Some b, Some c => Bool.eqb (c_nillable c) b || negb b
@@ -152,7 +152,7 @@ Fixpoint json_fits (cs : list fclass) (name : str) (v : json) {struct v} : bool 
 Definition reduce_group_raw (g : list fclass) : option fclass :=
   match g with
   | [] => None
-  | first :: _ => Some (mk_fclass (c_qname first) (c_ns first) (existsb c_mixed g) (c_nillable first)
+  | first :: _ => Some (mk_fclass (c_qname first) (c_ns first) (existsb c_mixed g) (existsb c_nillable g)
                                   (reduce_attributes (map c_attrs g)))
   end.
 Definition reduce_classes_raw (cs : list fclass) : list fclass :=
@@ -298,19 +298,32 @@ Definition node_values_exact (tbl : list (str * vtests)) (cs : list fclass) (par
 Definition g_values_exact (tbl : list (str * vtests)) (cs : list fclass) (t : tree) : bool :=
   tree_all (node_values_exact tbl cs) (root_ns t) t.
 
-(* JSON: a string value stays a string (its inferred type is rendered as a JSON string) *)
+(* JSON: a string value stays a string (its inferred type is rendered as a JSON string); holds since fix 9a0cfef *)
 Definition json_string_types : list str :=
-  DT_STRING :: map (fun m => dt_qname m)
+  DT_STRING :: DT_QNAME :: map (fun m => dt_qname m)
     [[84;73;77;69]; [68;65;84;69]; [68;65;84;69;95;84;73;77;69]; [68;85;82;65;84;73;79;78];
      [71;95;89;69;65;82;95;77;79;78;84;72]].   (* TIME DATE DATE_TIME DURATION G_YEAR_MONTH *)
+
+Definition json_str_type (cv : sconv) (s : str) : str := ty_qname (build_attr_type_json cv [] (JStr s)).
 
 Fixpoint g_json_strings (cv : sconv) (v : json) {struct v} : bool :=
   match v with
   | JStr [] => true
-  | JStr s => existsb (str_eqb (match_type_str cv s)) json_string_types
+  | JStr s => existsb (str_eqb (json_str_type cv s)) json_string_types
   | JList l => (fix each (l : list json) : bool := match l with [] => true | x :: r => g_json_strings cv x && each r end) l
   | JObj fs => (fix fields (fs : list (str * json)) : bool :=
                   match fs with [] => true | (_, x) :: r => g_json_strings cv x && fields r end) fs
+  | _ => true
+  end.
+
+(* every string leaf has a recorded row of converter tests *)
+Fixpoint json_rows_known (cv : sconv) (v : json) {struct v} : bool :=
+  match v with
+  | JStr [] => true
+  | JStr s => match sc_row cv s with Some _ => true | None => false end
+  | JList l => (fix each (l : list json) : bool := match l with [] => true | x :: r => json_rows_known cv x && each r end) l
+  | JObj fs => (fix fields (fs : list (str * json)) : bool :=
+                  match fs with [] => true | (_, x) :: r => json_rows_known cv x && fields r end) fs
   | _ => true
   end.
 
@@ -497,8 +510,6 @@ Definition json_same (a b : json) : bool := json_eqb (json_drop_nulls a) (json_d
 Definition uniform_by {A} (f : fclass -> A) (eqb : A -> A -> bool) (all : list fclass) : bool :=
   forallb (fun c => forallb (fun d => negb (str_eqb (c_qname c) (c_qname d)) || eqb (f c) (f d)) all) all.
 
-Definition g_nil_uniform (cv : sconv) (S : list tree) : bool :=
-  uniform_by c_nillable Bool.eqb (concat (map (map_tree cv) S)).
 Definition g_ns_uniform (cv : sconv) (S : list tree) : bool :=
   uniform_by c_ns ostr_eqb (concat (map (map_tree cv) S)).
 
